@@ -1,5 +1,6 @@
 """C05 - the EDIF reader builds exactly the design the file describes."""
 from simkit.engine import Prop
+from simkit import design_shrink
 from simkit.gen_hier import ScriptGen
 from simkit import corpus, textgen_edif
 from simkit.oracles.canon import named, dict_diff, _freeze
@@ -80,8 +81,10 @@ class C05(Prop):
             ev.append({"op": "fs_put_example", "name": cfg["example"], "path": "sim://in.edf"})
         else:
             d = textgen_edif.gen_design(rng, cfg["gen"])
-            text = textgen_edif.render(d, rng, cfg["render"])
-            ev.append({"op": "fs_put", "path": "sim://in.edf", "text": text, "design": d})
+            rs = rng.getrandbits(32)
+            text = design_shrink.render("edf", d, rs, cfg["render"])
+            ev.append({"op": "fs_put", "path": "sim://in.edf", "text": text, "design": d, "fmt": "edf",
+                       "render": cfg["render"], "render_seed": rs})
         ev.append({"op": "parse", "path": "sim://in.edf"})
         return ScriptGen(ev)
 
